@@ -14,7 +14,8 @@ PROPERTY = "C11"
 LEVEL = "exploration"
 RULE = (
     "EXHAUSTIVE product, each case built through real traffic on a real endpoint: state in {acceptor just connected, initiator "
-    "connected before its Logon, initiator after sending Logon, ACTIVE x2 roles, RESENDREQ_AWAITING x2 roles} x inbound class in "
+    "connected before its Logon, initiator after sending Logon, the same three states on the second connection of an object that "
+    "already had a session (the client having been logged on by the peer first), ACTIVE x2 roles, RESENDREQ_AWAITING x2 roles} x inbound class in "
     "{Logon, Logout, Heartbeat, TestRequest, ResendRequest, GapFill, Reset, Reject, application} x defect in {none, wrong "
     "BeginString, SenderCompID missing / wrong, TargetCompID missing / wrong, CompIDs swapped, MsgSeqNum missing, number below / "
     "at / above the expected one}; then send attempts of every message class (application, Heartbeat, TestRequest, Logon, Logout, "
@@ -30,11 +31,14 @@ ASSUMPTIONS = [
     "connection state after a discarded wrong-BeginString frame; a Logout or a Logon received pre-logon by an initiator that has not sent its own",
     "post-disconnect observation window is shorter than the initiator's reconnect delay (1.5 heartbeat intervals)",
 ]
-STATES = ["acc-connected", "init-connected", "init-logon-sent", "acc-active", "init-active", "acc-awaiting", "init-awaiting"]
+STATES = ["acc-connected", "init-connected", "init-logon-sent", "acc-active", "init-active", "acc-awaiting", "init-awaiting",
+          # the same pre-logon states on the SECOND connection of one object (after a complete earlier session in which
+          # the client was talked to first, i.e. took the acceptor part of the Logon exchange)
+          "acc2-connected", "init2-connected", "init2-logon-sent"]
 CLASSES = ["A", "5", "0", "1", "2", "GF", "RS", "3", "D"]
 DEFECTS = ["none", "begin", "sender-missing", "sender-wrong", "target-missing", "target-wrong", "swapped", "seq-missing", "seq-low", "seq-at", "seq-high"]
 SENDS = ["D", "0", "1", "A", "5", "2", "3", "4"]
-PRE = {"acc-connected", "init-connected", "init-logon-sent"}
+PRE = {"acc-connected", "init-connected", "init-logon-sent", "acc2-connected", "init2-connected", "init2-logon-sent"}
 
 
 def make_bench(state):
@@ -57,8 +61,46 @@ def make_bench(state):
         b.reader, b.writer = w.link.readers["c"], w.link.writers["c"]
         b.mark()
         return b
+    if state.startswith(("acc2", "init2")):
+        return second_connection(state)
     start = {"connected": "connected", "logon-sent": "connected", "active": "active", "awaiting": "awaiting-mid"}[state.split("-", 1)[1]]
     return Bench(role, start, next_in=4, next_out=4)
+
+
+def second_connection(state):
+    """An endpoint object on its second connection: first a complete session (for the client: the peer logs on
+    first, so the client answered as acceptor), a connection loss, then a fresh transport."""
+    from asyncfix import FMsg as _F
+    from asyncfix.message import FIXMessage as _M
+
+    if state.startswith("acc2"):
+        b = Bench("acceptor", "active", next_in=4, next_out=4)
+        b.feed(b.frame("D", b.E, [(11, "first-session")]))
+        b.link.break_("eof")
+        b.w.idle()
+        b.w.advance(1.01)
+        b.link = b.w.attach_server_only()
+        b.reader, b.writer = b.link.readers["s"], b.link.writers["s"]
+        b.mark()
+        return b
+    b = make_bench("init-connected")
+    # the counterparty talks first: the client takes the acceptor part of the Logon exchange
+    b.feed(b.frame("A", b.E, [(98, 0), (108, 30)]))
+    if b.ep.connection_state.name != "ACTIVE":
+        raise RuntimeError(f"first session not established: {b.ep.connection_state!r}")
+    b.feed(b.frame("D", b.E, [(11, "first-session")]))
+    b.w.link.break_("eof")
+    b.w.idle()
+    b.w.advance(1.01)
+    b.w.connect_client()
+    b.link = b.w.link
+    b.reader, b.writer = b.link.readers["c"], b.link.writers["c"]
+    if state == "init2-logon-sent":
+        r = b.w.call(b.ep.send_msg(_M(_F.LOGON, {98: 0, 108: 30})))
+        if r[0] != "ok":
+            raise RuntimeError(f"second Logon could not be sent: {r}")
+    b.mark()
+    return b
 
 
 def body_for(cls, uid, E):
@@ -196,7 +238,8 @@ def one_case(acc, state, cls, defect, extra=(), uid=1):
 
     try:
         ep = b.ep
-        exp_state = {"acc-connected": "NETWORK_CONN_ESTABLISHED", "init-connected": "NETWORK_CONN_ESTABLISHED", "init-logon-sent": "LOGON_INITIAL_SENT",
+        exp_state = {"acc2-connected": "NETWORK_CONN_ESTABLISHED", "init2-connected": "NETWORK_CONN_ESTABLISHED", "init2-logon-sent": "LOGON_INITIAL_SENT",
+                     "acc-connected": "NETWORK_CONN_ESTABLISHED", "init-connected": "NETWORK_CONN_ESTABLISHED", "init-logon-sent": "LOGON_INITIAL_SENT",
                      "acc-active": "ACTIVE", "init-active": "ACTIVE", "acc-awaiting": "RESENDREQ_AWAITING", "init-awaiting": "RESENDREQ_AWAITING"}[state]
         if ep.connection_state.name != exp_state:
             bad("setup/state-not-reached", f"clean traffic led to {ep.connection_state.name}, expected {exp_state}")
@@ -246,7 +289,7 @@ def one_case(acc, state, cls, defect, extra=(), uid=1):
             else:
                 expect_dropped("pre-logon", False)
         elif pre and cls == "A":
-            if state == "init-connected":
+            if state in ("init-connected", "init2-connected"):
                 pass  # FREE
             elif compid_defect or defect == "seq-missing":
                 expect_dropped("pre-logon-" + defect, defect == "seq-missing")
